@@ -147,6 +147,46 @@ func (p *Prog) nonZero(v ssa.Value, b *ssa.BasicBlock, edge []condFact, depth in
 				}
 			}
 		}
+		// len of a slice field every assignment of which is a make with a non-zero length (a ring that is allocated with
+		// a positive capacity and only ever replaced by a bigger one)
+		if bn := builtinName(&x.Call); bn == "len" || bn == "cap" {
+			if u, ok := p.origin(x.Call.Args[0]).(*ssa.UnOp); ok && u.Op == token.MUL {
+				if fa, ok := u.X.(*ssa.FieldAddr); ok {
+					if fv := fieldOfAddr(fa); fv != nil {
+						sts := p.storesToField(fv)
+						all := len(sts) > 0
+						for _, st := range sts {
+							switch ms := p.origin(st.Val).(type) {
+							case *ssa.MakeSlice:
+								if r, _ := p.nonZero(ms.Len, st.Block(), nil, depth+1); r != 1 {
+									all = false
+								}
+							case *ssa.Slice:
+								// make([]T, N) with a constant N is built as a slice of a new [N]T
+								al, isAl := ms.X.(*ssa.Alloc)
+								at, isArr := types.Type(nil), false
+								if isAl {
+									at = deref(al.Type()).Underlying()
+									_, isArr = at.(*types.Array)
+								}
+								highOK := ms.High == nil
+								if c, isC := constInt(ms.High); ms.High != nil && isC && c > 0 {
+									highOK = true
+								}
+								if !isAl || !isArr || at.(*types.Array).Len() == 0 || !highOK || ms.Low != nil {
+									all = false
+								}
+							default:
+								all = false
+							}
+						}
+						if all {
+							return 1, "length of a slice field that is only ever assigned make(…, n) with n > 0"
+						}
+					}
+				}
+			}
+		}
 		// len of a slice field that is only assigned at construction (a ring sized once)
 		if bn := builtinName(&x.Call); bn == "len" || bn == "cap" {
 			if u, ok := p.origin(x.Call.Args[0]).(*ssa.UnOp); ok && u.Op == token.MUL {
